@@ -633,6 +633,18 @@ func (env *SpecEnv) call(x *SCall) Val {
 			n := *env
 			n.st = env.loopPre
 			return n.eval(x.Args[0])
+		case "apply":
+			// apply(f, xs...): the result of calling the function value f
+			f := env.eval(x.Args[0])
+			var as []Val
+			for _, a := range x.Args[1:] {
+				as = append(as, env.eval(a))
+			}
+			r, ok := u.applyTerm(f, as)
+			if !ok {
+				env.fail("apply(): not a single-result function value of %d parameters", len(as))
+			}
+			return r
 		case "count":
 			name := x.Args[0].(*SIdent).Name
 			if v, ok := env.st.ghost["count:"+name]; ok {
@@ -1063,6 +1075,15 @@ func (u *Unit) resolveType(home *packages.Package, t *STypeExpr) (types.Type, st
 		_, ks := u.resolveType(home, t.Key)
 		_, vs := u.resolveType(home, t.Elem)
 		return nil, "(Array " + ks + " " + vs + ")"
+	case "func":
+		var ps []*types.Var
+		for _, a := range t.Args {
+			at, _ := u.resolveType(home, a)
+			ps = append(ps, types.NewVar(token.NoPos, nil, "", at))
+		}
+		rt, _ := u.resolveType(home, t.Elem)
+		sig := types.NewSignatureType(nil, nil, nil, types.NewTuple(ps...), types.NewTuple(types.NewVar(token.NoPos, nil, "", rt)), false)
+		return sig, "Int"
 	case "name":
 		switch t.Name {
 		case "int", "int8", "int16", "int32", "int64", "uint", "uint8", "uint16", "uint32", "uint64", "uintptr", "byte", "rune", "bool", "string", "float64", "float32", "any", "error":
